@@ -111,8 +111,8 @@ CHECKS["C04"] = dict(
 
 CHECKS["C14"] = dict(
     engine="symex+rex", category="other",
-    text="PARTIAL. Decided on the real source: (a) the byte->character offset table of HyperscanTokenizer.extract_tokens on texts with symbolic UTF-8 widths and arbitrary byte hits (aligned+confirmed hits yield exactly one token with the right character offsets, others none, nothing raises); (b) every pattern handed to hyperscan has the same Python-level language as the extractor's own pattern (z3 regex equivalence for each pattern convert_regex changes; flags mapped); (c) hyperscan_db returns a loaded or freshly compiled database and does not raise for any documented loadb outcome. The multi-byte-neighbour miss is a known finding (replayed, printed as KNOWN-FINDING).",
-    note="NOT decided: which byte ranges Hyperscan reports, hence the clause 'reports every candidate the reference reports' (Hyperscan's matcher is C code outside this technique). Bounds: <=3/4 characters, <=2/3 hits. The old-signature (hyperscan<0.5) TypeError fallback is outside. Concrete add-ons (not solver results): in-domain differential texts, damaged cache files.",
+    text="PARTIAL. Decided on the real source: (a) the byte->character offset table of HyperscanTokenizer.extract_tokens on texts with symbolic UTF-8 widths and arbitrary byte hits (aligned+confirmed hits yield exactly one token with the right character offsets, others none, nothing raises); (b) every pattern handed to hyperscan has the same Python-level language as the extractor's own pattern (z3 regex equivalence for each pattern convert_regex changes; flags mapped); (c) hyperscan_db returns a loaded or freshly compiled database and does not raise for any documented loadb outcome; (e) for group 1 of every extractor, the UTF-8 bytes of every string the Python pattern matches are matched by the byte-level reading Hyperscan gives the converted pattern (bytes as latin-1, ASCII-only classes) - z3 regex inclusion per extractor, any length, over ASCII + 10 representative multi-byte characters; witnesses replayed on both real tokenizers. Two known findings (multi-byte neighbour; 38 patterns whose byte-level reading rejects a multi-byte character inside the token) are replayed and printed as KNOWN-FINDING.",
+    note="NOT decided: which byte ranges Hyperscan's matcher actually reports for a pattern it accepted (C code outside this technique; clause (e) decides what it is asked to match, under the stated model of its parser), and the multi-byte characters outside the representative alphabet. Bounds: <=3/4 characters, <=2/3 hits. The old-signature (hyperscan<0.5) TypeError fallback is outside. Concrete add-ons (not solver results): in-domain differential texts, damaged cache files.",
     technique="symbolic execution of the Python source + z3; regex equivalence by z3's regex solver; contract stubs for the hyperscan module",
     design_ref="DESIGN.md section 3, C14",
 )
